@@ -201,3 +201,55 @@ if __name__ == '__main__':
           'wall %.1f' % r.wall)
     for s in sents[:: max(1, len(sents) // 12)]:
         print('  ', s.abstract(), '   ', s.bracketed())
+
+
+def compositions(themes, rng, tier, names=None, chunk=10, twins=True):
+    """Longer programs made of the short derived ones (sentence.compose):
+    (a) every explicitly ended sentence of <= 6 tokens ("atom") appears in
+        two seeded shuffles cut into programs of `chunk` atoms - state that a
+        printer or lexer carries from one statement to the next is exercised;
+    (b) "twins": an atom with exactly one token of a spelling pool class,
+        twice in one program with two spellings that share their first or
+        last character but differ otherwise (every ordered pair) - decisions
+        that depend on more than the adjoining characters.
+    -> [(Sentence, {token index: spelling} or None)]"""
+    from sentence import compose, ends_explicitly
+    from concretise import POOLS
+    atoms = {}
+    for n in (names or sorted(themes)):
+        for s in themes[n]:
+            if 1 <= len(s.tokens) <= 6 and ends_explicitly(s) and \
+                    s.raw[0][0][:2] == ['(', 'ES5Program'] and \
+                    not any(t.nl for t in s.tokens):
+                atoms.setdefault(s.key(), s)
+    atoms = [atoms[k] for k in sorted(atoms)]
+    if tier == 'quick':
+        atoms = [a for a in atoms if len(a.tokens) <= 5]
+    out = []
+    for rnd in range(2):
+        order = atoms[:]
+        rng.shuffle(order)
+        for i in range(0, len(order), chunk):
+            part = order[i:i + chunk]
+            if len(part) > 1:
+                out.append((compose(part), None))
+    if twins:
+        rich = POOLS['rich']
+        for a in atoms:
+            if len(a.tokens) > 4:
+                continue
+            for cls in ('NUM', 'ID', 'IDN'):
+                slots = [t for t in a.tokens if t.cls == cls]
+                if len(slots) != 1:
+                    continue
+                t = slots[0]
+                pool = rich[cls]
+                for s1 in pool:
+                    for s2 in pool:
+                        if s1 != s2 and (s1[-1] == s2[-1] or
+                                         s1[0] == s2[0]) \
+                                and (tier != 'quick' or rng.random() < 0.34):
+                            out.append((compose([a, a]),
+                                        {t.idx: s1,
+                                         t.idx + len(a.tokens): s2}))
+    return out
